@@ -280,6 +280,46 @@ func genLenPerturbed(r *vu.Rng) []byte {
 	return b
 }
 
+// genTruncLast: the last record's RDLENGTH is larger than the bytes that remain - by one or by many -
+// either because the message is cut inside its RDATA or because RDLENGTH is raised.
+func genTruncLast(r *vu.Rng) []byte {
+	b := append([]byte{}, packValid(r)...)
+	if r.Bool() {
+		b = append([]byte{}, genLenMessage(r)...)
+	}
+	offs := lengthOctets(b)
+	last := -1 // offset of the low byte of the last RDLENGTH
+	for _, i := range offs {
+		if i >= 1 && i+1 <= len(b) {
+			// RDLENGTH octets are the ones directly before an RDATA; the last record's is the largest
+			// offset whose record reaches the end of the message
+			if i+1+int(b[i-1])<<8+int(b[i]) == len(b) && i > last {
+				last = i
+			}
+		}
+	}
+	if last < 0 {
+		return b
+	}
+	by := 1
+	if r.Bool() {
+		by = 2 + r.Intn(300)
+	}
+	if r.Bool() { // cut the message
+		rd := int(b[last-1])<<8 + int(b[last])
+		if by > rd {
+			by = rd
+		}
+		return b[:len(b)-by]
+	}
+	v := int(b[last-1])<<8 + int(b[last]) + by
+	if v > 65535 {
+		v = 65535
+	}
+	b[last-1], b[last] = byte(v>>8), byte(v)
+	return b
+}
+
 func msgOps(b []byte, r *vu.Rng) []string {
 	h := vu.Hex(b)
 	ops := []string{"unpack " + h, "skipall " + h}
@@ -329,6 +369,10 @@ func gen(r *vu.Rng, i int) []string {
 		return msgOps(packValid(r), r)
 	case k < 62:
 		return msgOps(genLenPerturbed(r), r)
+	case k < 68:
+		b := genTruncLast(r)
+		h := vu.Hex(b)
+		return append(msgOps(b, r), "walk "+h+" kkkkkkkkkkkk", "walk "+h+" ssssssssssss", "walk "+h+" hhhhhhhhhhhh")
 	case k < 90:
 		return msgOps(mutate(r, packValid(r)), r)
 	case k < 95: // header + random tail
